@@ -2,7 +2,7 @@
     template's hydrogens satisfy [valence_okb]: _explicit_h only looks at the matched atoms, which carry the rule's hydrogen
     changes and pair ids whatever the substrate is.  Generalises proof/C04_TotalDefault.v (identity match on the own substrate). *)
 From Coq Require Import List NArith ZArith Bool Arith Lia Permutation.
-From SK Require Import lib.Tok lib.LGraph model.C03_Model model.C04_Model model.C04_Reactor proof.C03_Proof proof.C03_Glue proof.C03_Spec proof.C03_StripCounts
+From SK Require Import lib.Tok lib.LGraph model.C03_Model model.C03_Order proof.C03_Ord model.C04_Model model.C04_Reactor proof.C03_Proof proof.C03_Glue proof.C03_Spec proof.C03_StripCounts
                        proof.C03_StripExact proof.C03_StripCor proof.C03_PairIdsComplete proof.C03_ExplicitTotal
                        proof.C04_Glue proof.C04_Template proof.C04_Fold proof.C04_Default proof.C04_DefaultProof proof.C04_Total proof.C04_TotalDefault.
 Import ListNotations.
@@ -78,7 +78,7 @@ Section TotalAny.
     pose proof (find_none _ _ E p Ip) as K. simpl in K. rewrite <- En, N.eqb_refl in K. discriminate.
   Qed.
 
-  Theorem any_match_total : explicit_h T <> None.
+  Theorem any_match_balanced : pairs_okb T = true.
   Proof.
     pose proof (nodupb_NoDup _ Hnd0) as Hnd.
     destruct (synrule_default_pointwise tpl rc l r Hnd0 Hel Es) as (R & RN & RH & Ri & _ & _ & _ & _ & RCa & _).
@@ -103,7 +103,7 @@ Section TotalAny.
       - exact (assoc_in k (gnodes rc) Ea).
       - exists hn. exact Hl. }
     set (f := fun (h k : N) => cnt EG h k - cnt EH h k).
-    apply (explicit_h_total T N R (fun h n => match yinv n with Some p => f h p | None => 0 end)).
+    apply (balanced_components T N R (fun h n => match yinv n with Some p => f h p | None => 0 end)).
     - intros n. destruct (yinv n) as [p|] eqn:Ei.
       + destruct (yinv_some n p Ei) as [Ip <-]. destruct (in_ids_label rc p Ip) as [a Ea]. destruct (Tin p a Ea) as (hn & Hl).
         unfold dl_of. rewrite Hl. unfold delta_h, f. cbn [iG iH a_hc]. rewrite <- (Delta p a Ea). lia.
@@ -141,4 +141,10 @@ Section TotalAny.
       unfold valence_okb in VAL. rewrite forallb_forall in VAL.
       specialize (VAL h (proj2 (h_nodes_i_spec tpl h Hnd) (RinH h Ih))). apply Z.leb_le in VAL. exact VAL.
   Qed.
+
+  Theorem any_match_total : explicit_h T <> None.
+  Proof. intros E. apply explicit_h_crash_iff in E. rewrite any_match_balanced in E. discriminate. Qed.
+  Theorem any_match_total_ord (ord : list N -> list N) :
+    (forall l0 x, In x (ord l0) <-> In x l0) -> (forall l0, NoDup l0 -> NoDup (ord l0)) -> explicit_h_ord ord T <> None.
+  Proof. intros O1 O2 E. apply (explicit_h_ord_crash_iff ord O1 O2) in E. rewrite any_match_balanced in E. discriminate. Qed.
 End TotalAny.
